@@ -15,6 +15,7 @@ func init() {
 			E3ArcShortcut(c, r)
 			E3BoundingBoxes(c, r)
 			E3BoundsExtrema(c, r)
+			E3ArcExtent(c, r)
 		},
 	})
 }
@@ -24,6 +25,7 @@ func init() {
 		Title:       "Boolean path operations compute the set algebra of the filled regions",
 		Explanation: "Decides the finite tables of the boolean operations for every input that reaches them: each public wrapper passes the op constant of its name, its own operands and NonZero; SweepPoint.InResult's per-op membership expressions equal the property's truth table over (subject fills, clipping fills) on each side of an edge and an edge is kept iff filling changes; the pathOp switch is exhaustive; bentleyOttmann's four early-outs (Q empty, P empty, disjoint sub-path of P, of Q) keep an operand exactly for the ops whose truth table keeps it. NOT decided: the sweep itself, snap rounding, overlap merging, contour tracing, termination, area laws.",
 		Run: func(c *core.Ctx, r *core.Report) {
+			E9ClipClosed(c, r)
 			E9AbsorbedLink(c, r)
 			E9AbsorbConserves(c, r)
 			E9DepthFromResultEdge(c, r)
@@ -39,6 +41,7 @@ func init() {
 		Title:       "Settle preserves the filled region and returns a canonical simple path",
 		Explanation: "Decides: FillRule.Fills is definite on the sign×parity classes of the winding number and equals each rule's definition, with a case for all four rules; the Settle entry points pass nil, opSettle and their own fill rule to the sweep; opSettle membership is the subject's own fill on each side; settling an empty path yields the empty path. NOT decided: canonical form, hole orientation, idempotence, the sweep.",
 		Run: func(c *core.Ctx, r *core.Report) {
+			E4InsertAlias(c, r, []string{""})
 			E9AbsorbedLink(c, r)
 			E9AbsorbConserves(c, r)
 			E9DepthFromResultEdge(c, r)
@@ -147,6 +150,7 @@ func init() {
 		Run: func(c *core.Ctx, r *core.Report) {
 			E4AlphaDivision(c, r)
 			E5JPEGColorSpace(c, r)
+			E4AdditiveLoop(c, r)
 			E5Position(c, r)
 			E5ObjOffsets(c, r)
 			E5Reserved(c, r)
@@ -229,6 +233,7 @@ func init() {
 			E12ColorSpaceOnce(c, r)
 			E6ImplicitClose(c, r)
 			E11StrokeToleranceView(c, r)
+			E11StrokeBeforeView(c, r)
 			E6StyleCoverage(c, r, map[string]bool{"Rasterizer": true})
 			E6ScannerSites(c, r)
 			E6WindingMode(c, r)
@@ -242,6 +247,7 @@ func init() {
 		Explanation: "Decides, for every call sequence: view helpers are exactly `view = view.Mul(Identity.<same-named op>(own parameters))` (post-multiplication) and ComposeView post-multiplies its argument; the four draw entry points assemble the same matrix CoordSystemView().Mul(view).Translate(coordView.Dot(x,y)) and compensate text/images exactly in the coordinate systems whose CoordSystemView reflects that axis; every Set*/Reset* method stores only into ContextState; Push saves and Pop restores the whole ContextState (Pop guarded, shrinking by one); Fill/Stroke clear and restore exactly the other paint; drawing does not rewrite the dash array shared with pushed states; RenderViewTo replays in sorted z-index then slice order with no renderer call inside a map range, and recording appends to the current z-index slice. NOT decided: the matrix algebra itself, Fit/Clip/Transform arithmetic, that DrawPath with several paths keeps per-path stroke state.",
 		Run: func(c *core.Ctx, r *core.Report) {
 			E11DashPairTogether(c, r)
+			E11SetterCopiesSlice(c, r)
 			E11DashCover(c, r)
 			E11DrawLoopState(c, r)
 			E11ReflectCurrentImage(c, r)
@@ -302,12 +308,13 @@ func init() {
 func init() {
 	register("C18", &Property{
 		Title:       "Embedded fonts and glyph paths reproduce the laid-out text",
-		Explanation: "Decides three structural clauses: (1) 'the glyph subsetter assigns each used glyph one stable code with .notdef at zero' — the constructor and Get/List have exactly the hit/miss/append shape, and the PDF writer creates a font's subsetter only when the font has none (a second writing direction must not reset the codes already written); (2) fonts used for vertical text are kept in their own map and written with the matching vertical flag (Identity-V vs Identity-H), every font map that reserves an object is written in Close, and every Tf operand names a font registered in the page's resources (E5 font-map and resource rules). NOT decided: outlines, advances, the W array, ToUnicode contents, glyph placement in toPath.",
+		Explanation: "Decides three structural clauses: (1) 'the glyph subsetter assigns each used glyph one stable code with .notdef at zero' — the constructor and Get/List have exactly the hit/miss/append shape, and the PDF writer creates a font's subsetter only when the font has none (a second writing direction must not reset the codes already written); (2) fonts used for vertical text are kept in their own map and written with the matching vertical flag (Identity-V vs Identity-H), every font map that reserves an object is written in Close, and every Tf operand names a font registered in the page's resources (E5 font-map and resource rules). (3) the ToUnicode grouping loop keeps `start+length` equal to the visited code (E11.run-covers-codes). NOT decided: outlines, advances, the W array contents, the characters the ToUnicode map names, glyph placement in toPath.",
 		Run: func(c *core.Ctx, r *core.Report) {
 			E11AdvanceAxis(c, r)
 			E11Subsetter(c, r)
 			E5SubsetOnce(c, r)
 			E5WidthRuns(c, r)
+			E11RunCoversCodes(c, r)
 			E11DerivedScale(c, r)
 			E5TextMatrixComplete(c, r)
 			E5FontMaps(c, r)
@@ -319,6 +326,7 @@ func init() {
 		Explanation: "Decides the unit and coverage tables of the importer for every document: parseDimension's factors equal the CSS absolute-unit and angle tables (constant folding); the canvas size is in millimetres on every branch (explicit width/height and viewBox fallback use the same px→mm factor) and init uses the inverse factor, the y-down coordinate system and the size/viewBox user-unit scale (px→mm without a viewBox); drawShape has a case for each basic shape; the path data parser's index guards and explicit-panic freedom are decided under C11. NOT decided: styling precedence, CSS selectors, transform order, per-element geometry, the write/read round trip.",
 		Run: func(c *core.Ctx, r *core.Report) {
 			E11SVGVocabulary(c, r)
+			E11WordListMatch(c, r)
 			E11SVGCascade(c, r)
 			E11SVGTransformSeparator(c, r)
 			E11SVGColorGrammar(c, r)
